@@ -420,7 +420,9 @@ def run_laws(task):
         base = ["--paging=never", "--detect-dark-light=never", "--dark"] + \
             (["--no-gitconfig"] if cfgmode == "no-gitconfig" else ["--config=" + cfg])
         if which == "cli-wins":
-            for o, v in sorted(LAW_VALUES.items()):
+            # (every option with its test value; the label options also with an empty value, which is a value too)
+            for o, v in sorted(LAW_VALUES.items()) + [(o_, "") for o_ in sorted(LAW_VALUES) if o_.endswith("-label")
+                                                      or o_ == "right-arrow"]:
                 ref = sc(base + ["--%s=%s" % (o, v)]).get(o)
                 for f in LAW_FEATS:
                     if (o, f) == ("max-line-length", "side-by-side"):
